@@ -801,6 +801,10 @@ impl TransformerContext {
     }
 
     /// The previous element: as evaluated, and as written
+    pub fn set_prev_elements(&mut self, prev: (Option<SvgElement>, Option<SvgElement>)) {
+        (self.prev_element, self.prev_original) = prev;
+    }
+
     pub fn prev_elements(&self) -> (Option<SvgElement>, Option<SvgElement>) {
         (self.prev_element.clone(), self.prev_original.clone())
     }
